@@ -211,8 +211,21 @@ class C04(Property):
     id = "C04"
     title = "set() reports one coherent outcome: return, value, u and signal agree"
     proof_module = "Proofs.C04"
-    theorems = []
-    generated_obligations = []
+    theorems = [
+        "Flatland.C04.Proofs.set_coherent",
+        "Flatland.C04.Proofs.set_flag",
+        "Flatland.C04.Proofs.set_success",
+        "Flatland.C04.Proofs.set_failure",
+        "Flatland.C04.Proofs.set_signals",
+        "Flatland.C04.Proofs.set_total_partial",
+        "Flatland.C04.Proofs.set_total_text",
+        "Flatland.C04.Proofs.C04_total_fails",
+        "Flatland.C04.Proofs.reset_text_partial",
+        "Flatland.C04.Proofs.reset_value_partial",
+        "Flatland.C04.Proofs.C04_reset_u_fails",
+        "Flatland.C04.Proofs.C04_reset_value_fails",
+    ]
+    generated_obligations = ["Flatland.C04.Proofs.pyTables_ok"]
     trusted_base = [
         "CPython str.strip, int(str), '%i'/'%0Ni', str(obj), re (three Temporal regexes), datetime.date/time validity are re-implemented "
         "as Lean functions over tables regenerated from the running interpreter (Unicode whitespace, Nd decades, int digit limit); "
